@@ -354,6 +354,23 @@ def vgbs_config(res, case, groups=None):
         A_lib = guarded("VGBS.A", lambda: np.array(vg.A(theta)), "model")
         if A_lib is not None and not close(A_lib, A_ref, 1e-10, 1e-12):
             V("C20|VGBS.A|WAW", f"VGBS.A(theta) differs from W A_init W by {maxdiff(A_lib, A_ref):.3g} at theta={theta.tolist()}", ex)
+        # a training loop updates ONE parameter array in place and queries the same object again: the answers follow the array
+        def in_place():
+            th = theta + 0.11  # a new array holding values the object has not seen yet
+            vg.A(th), vg.n_mean(th)
+            th += 0.3
+            th[0] -= 0.45
+            return th, np.array(vg.A(th)), float(vg.n_mean(th)), float(param.VGBS(A0, n_mean, emb, thr).n_mean(th.copy()))
+
+        upd = guarded("VGBS.A(in-place update)", in_place, "model")
+        if upd is not None:
+            th2, A2, nm_same, nm_fresh = upd
+            w2 = np.exp(-F @ th2)
+            A2_ref = np.diag(np.sqrt(w2)) @ A_init @ np.diag(np.sqrt(w2))
+            if not close(A2, A2_ref, 1e-10, 1e-12):
+                V("C20|VGBS.A|stale-after-in-place-update", f"after the parameter array was updated in place (theta={theta.tolist()} -> {th2.tolist()}) VGBS.A on the same object differs from W A_init W by {maxdiff(A2, A2_ref):.3g}", ex)
+            elif not close(nm_same, nm_fresh, 1e-9, 1e-12):
+                V("C20|VGBS.n_mean|stale-after-in-place-update", f"after the parameter array was updated in place VGBS.n_mean on the same object is {nm_same!r}, a fresh object gives {nm_fresh!r}", ex)
         if not thr:  # embedding is independent of the threshold flag: checked once
             jac = guarded("ExpFeatures.jacobian", lambda: np.array(emb.jacobian(theta), dtype=float), "model")
             if jac is not None:
